@@ -97,7 +97,7 @@ def build(stream, p):
     else:
         k = p["k"]
         cfg = None
-        filt = gen.TableFilter(k, p["table"])
+        filt = gen.table_filter(k, p["table"])
         table_seed = None
     n = 4 ** k
     table = gen.random_table(random.Random(table_seed), n) if table_seed is not None else None
